@@ -2,12 +2,12 @@ SPECIFICATION Spec
 CONSTANTS
   Src <- SrcC
   Targets <- TargetsC
-  Configs <- AllConfigs
-  D = 1
-  MaxAls = 2
-  EditVals = {2, 3, 6}
+  Configs <- PinvConfigs
+  D = 4
+  MaxAls = 1
+  EditVals = {}
   PairAll = FALSE
-  WithPinv = FALSE
+  WithPinv = TRUE
 INVARIANT HistoryIndependent
 INVARIANT AfterSetTargetInSync
 INVARIANT Optimal
